@@ -434,7 +434,8 @@ structure ShowCfg where
   boxFmt : Str      -- Box_Show: "<'Box' at 0x%p (%$)>" with (self, Box_Deref(self))
   nullFmt : Str     -- show_to(NULL): "<NULL>"
   defaultFmt : Str  -- show_to without a Show instance: "<'%s' At 0x%p>" with (type_of(self), self)
-  typeOff : Bool    -- Type_Show returns `format_to(…)` (characters written) rather than the new position
+  typeOff : Bool    -- true = the OLD Type_Show (before fix 0046a69): returns `format_to(…)` (characters written) rather than the new
+                    -- position; false = `return print_to(output, pos, "%s", self);` (the code now)
 deriving Repr, Inhabited
 
 /-- `$I(*v)` for a `char` (signed on the platforms Cello targets) -/
@@ -505,10 +506,16 @@ def showD : Nat → Obj → Out → Out × Outcome
     | .null => P sc.nullFmt [] o                               -- show_to: if (self is NULL) return print_to(out, pos, "<NULL>")
     | .other tname => P sc.defaultFmt [.type tname, a] o       -- show_to: no Show instance: "<'%s' At 0x%p>", type_of(self), self
     | .type name =>
-      -- Type_Show: `return format_to(output, pos, "%s", Type_Builtin_Name(self));` — the number of characters written, NOT
-      -- the new position (every other show returns `pos + …`); `print_to_with` then does `pos = show_to(a, out, pos)`
-      match o.call prim ['%', 's'] (.cstr name) with
-      | (o', oc) => (if sc.typeOff then { o' with pos := o'.pos - o.pos } else o', oc)
+      if sc.typeOff then
+        -- OLD Type_Show (before fix 0046a69): `return format_to(output, pos, "%s", Type_Builtin_Name(self));` — the number of
+        -- characters written, NOT the new position (every other show returns `pos + …`); `print_to_with` then does
+        -- `pos = show_to(a, out, pos)`.  Kept as an explicit variant (`showOld`, `C14_type_show_old_refuted`).
+        match o.call prim ['%', 's'] (.cstr name) with
+        | (o', oc) => ({ o' with pos := o'.pos - o.pos }, oc)
+      else
+        -- Type_Show as it is now: `return print_to(output, pos, "%s", self);` — `c_str(self)` is the type's name (`cStr`),
+        -- the new position comes back like from every other show
+        P ['%', 's'] [a] o
     | .sink =>
       match o.sink with
       | .str _ =>
@@ -523,22 +530,22 @@ def printTo (d : Nat) (fmt : Str) (args : List Obj) (o : Out) : Result :=
 
 end shows
 
-/-! ## arguments that are neither the destination nor a Type object -/
+/-! ## arguments that are not (and do not reach) the destination -/
 
 /-- the argument is the destination object itself -/
 def Obj.isSink : Obj → Bool
   | .sink => true
   | _ => false
 
-/-- within `d` levels of `show` neither the destination itself (aliasing: `String_Show` / `String_Format_To` read the buffer
-    they reallocate) nor a Type object (`Type_Show` returns a length, not a position) is reached, and the object is not the
-    destination.  Decidable; beyond `d` levels `showD d` runs out of fuel before it reaches anything. -/
+/-- within `d` levels of `show` the destination itself is not reached (aliasing: `String_Show` / `String_Format_To` read the
+    buffer they reallocate), and the object is not the destination.  Type objects are plain (since fix 0046a69 `Type_Show`
+    returns a position like every other show).  Decidable; beyond `d` levels `showD d` runs out of fuel before it reaches
+    anything. -/
 def plainD : Nat → Obj → Bool
   | 0, a => !a.isSink
   | d+1, a =>
     match a with
     | .sink => false
-    | .type _ => false
     | .array xs => xs.all (plainD d)
     | .tuple xs => xs.all (plainD d)
     | .list xs => xs.all (plainD d)
@@ -549,7 +556,7 @@ def plainD : Nat → Obj → Bool
     | _ => true
 
 /-- the argument list of a `print_to` whose `show` has fuel `d`: no argument is the destination, and `show` of each stays
-    clear of the destination and of Type objects -/
+    clear of the destination -/
 def plainArgs (d : Nat) (args : List Obj) : Bool := args.all (plainD d)
 
 /-! ## the grammar and its reference semantics -/
